@@ -3,7 +3,7 @@
 from typing import Callable, Iterator, Optional
 from .tokens import Token, TokenType, KEYWORDS
 from .errors import JSSyntaxError, TimeLimitError
-from .values import js_number
+from .values import decimal_integer, js_number
 
 
 def _is_digit(ch: str) -> bool:
@@ -252,7 +252,7 @@ class Lexer:
         num_str = self.source[start : self.pos]
         if is_float:
             return float(num_str)
-        return js_number(int(num_str))
+        return decimal_integer(num_str)
 
     def _read_identifier(self) -> str:
         """Read an identifier."""
